@@ -327,7 +327,7 @@ def main():
     if hooked is not None and spec.get("search", True):
         findings, stats = step_search(pid, tier, seed, report,
                                       steer=("broken" if broken else None),
-                                      budget_mult=(3 if broken else 1))
+                                      budget_mult=(3 if broken else 1) * (spec.get("thorough_mult", 1) if tier == "thorough" else 1))
 
     known = [k for k in load_known() if k.get("property") == pid and k.get("status", "known") == "known"]
     known_sigs = {k["signature"]: k for k in known}
